@@ -354,11 +354,14 @@ def importsBack (rel : List (Str × List Str)) (m : Str) : Bool :=
   let fuel := (relSize rel + 1) * (relSize rel + 1)
   ((relGet rel m).getD []).any (fun c => reachLoop rel m fuel [c] [])
 
+/-- a relative location is taken relative to the current directory -/
+def absPath (ctx : PCtx) (fileLoc : Str) : Str :=
+  match fileLoc with
+  | '/' :: _ => fileLoc
+  | _ => pathJoin ctx.cwd fileLoc
+
 def dirWithSlash (ctx : PCtx) (fileLoc : Str) : Res Str :=
-  let abs := match fileLoc with
-    | '/' :: _ => fileLoc
-    | _ => pathJoin ctx.cwd fileLoc
-  match pathParent abs with
+  match pathParent (absPath ctx fileLoc) with
   | none => .panic "parser.rs:expand_dirname_constant parent().unwrap()"
   | some d => .ok (if endsWith d ['/'] then d else d ++ ['/'])
 
